@@ -1,0 +1,38 @@
+//go:build verif
+
+package mutation
+
+// Contracts for fvc (see /verif/DESIGN.md). Comment-only file.
+// Mutators change their argument in place; every field they may touch is pinned to a function of the input
+// and the dynamic configuration, and `modifies` states what else stays unchanged.
+
+//@ extern func iface github.com/furiko-io/furiko/pkg/runtime/controllercontext.Context.Configs
+//@   params recv
+//@ extern func iface github.com/furiko-io/furiko/pkg/runtime/controllercontext.Configs.Jobs
+//@   params recv
+//@   ensures result1 == nil ==> result0 != nil
+
+//@ func Mutator.MutateParallelismSpec
+//@   tags C16
+//@   requires spec != nil
+//@   modifies spec.CompletionStrategy
+//@   ensures [C16] completion-strategy-default: spec.CompletionStrategy == (old(spec.CompletionStrategy) == "" ? v1alpha1.AllSuccessful : old(spec.CompletionStrategy))
+//@   ensures [C16] no-errors: result != nil && len(result.Errors) == 0
+
+//@ func Mutator.MutatePodTemplateSpec
+//@   tags C16
+//@   requires spec != nil
+//@   modifies spec.Spec.RestartPolicy
+//@   ensures [C16] restart-policy-default: spec.Spec.RestartPolicy == (old(spec.Spec.RestartPolicy) == "" ? corev1.RestartPolicyNever : old(spec.Spec.RestartPolicy))
+//@   ensures [C16] no-errors: result != nil && len(result.Errors) == 0
+
+// lastUpdated is stamped exactly when a schedule exists at creation, unless a later time was supplied (C03, C16)
+//@ func Mutator.MutateCreateJobConfig
+//@   tags C03, C16
+//@   requires rjc != nil
+//@   modifies clock, rjc.Spec.Schedule.LastUpdated
+//@   ensures [C03,C16] stamped-at-creation: rjc.Spec.Schedule != nil ==> rjc.Spec.Schedule.LastUpdated != nil
+//@        && ((old(rjc.Spec.Schedule.LastUpdated) != nil && !old(rjc.Spec.Schedule.LastUpdated.Time.IsZero()) && old(ns(rjc.Spec.Schedule.LastUpdated.Time)) > clock)
+//@              ? rjc.Spec.Schedule.LastUpdated == old(rjc.Spec.Schedule.LastUpdated)
+//@              : ns(rjc.Spec.Schedule.LastUpdated.Time) == clock)
+//@   ensures [C16] no-schedule-untouched: rjc.Spec.Schedule == old(rjc.Spec.Schedule) && clock >= old(clock)
